@@ -119,7 +119,7 @@ def run(ctx):
     role_fns = {f for f, _ in OUTPUT_ROLE + DRAIN_ROLE} | {JT + "::output_refs"}
     other = sum(len(v) for k, v in by_fn.items() if k not in role_fns)
     r.notes.append(f"{other} further JoinType case analyses are extracted but not in a role table (information only)")
-    return [r, rule_flags(facts)]
+    return [r, rule_flags(facts), rule_optab(facts), rule_condkeep(facts)]
 
 
 CLAIM = {
@@ -201,4 +201,91 @@ def rule_flags(facts):
                               rec["file"], c.line)
     if n_a == 0:
         r.missing_anchor("Vec<bool>::resize(n, false) of a join state field (hash join right_matches)")
+    return r
+
+
+# ---------------------------------------------------------------------------------------------
+CO = "glaredb_core::expr::comparison_expr::ComparisonOperator"
+# a OP b  ≡  b FLIP(OP) a          ¬(a OP b)  ≡  a NEG(OP) b      (IS [NOT] DISTINCT FROM is symmetric in its operands)
+FLIP = {"Eq": "Eq", "NotEq": "NotEq", "Lt": "Gt", "LtEq": "GtEq", "Gt": "Lt", "GtEq": "LtEq",
+        "IsDistinctFrom": "IsDistinctFrom", "IsNotDistinctFrom": "IsNotDistinctFrom"}
+NEG = {"Eq": "NotEq", "NotEq": "Eq", "Lt": "GtEq", "LtEq": "Gt", "Gt": "LtEq", "GtEq": "Lt",
+       "IsDistinctFrom": "IsNotDistinctFrom", "IsNotDistinctFrom": "IsDistinctFrom"}
+
+
+def _op_table(m):
+    """variant -> variant from a `match self { V => W, … }` table, None when an arm is not of that shape"""
+    tab = {}
+    for arm in m["arms"]:
+        pats = []
+
+        def walk(p):
+            if p.get("k") == "v" and p.get("def", "").startswith(CO + "::"):
+                pats.append(p["def"].rsplit("::", 1)[-1])
+            for x in p.get("sub", []):
+                walk(x if isinstance(x, dict) else x[1])
+        walk(arm["pat"])
+        body = arm["body"]
+        if not pats or body.get("k") != "path" or not body.get("def", "").startswith(CO + "::"):
+            return None
+        for v in pats:
+            tab[v] = body["def"].rsplit("::", 1)[-1]
+    return tab
+
+
+def rule_optab(facts):
+    r = RuleResult("C06-OPTAB", "ComparisonOperator::flip / negate are the operand-swap and the logical-complement tables of the eight comparison "
+                   "operators (used when a join condition is written right-table-first and when NOT is pushed into a comparison)", floor=16)
+    for name, spec, why in (("flip", FLIP, "a join condition whose sides are swapped is evaluated with the wrong operator: the join returns other pairs"),
+                            ("negate", NEG, "NOT (a op b) is rewritten to a different predicate")):
+        ms = [m for m in facts.records("match", "glaredb_core") if m["fn"] == f"{CO}::{name}"]
+        if not ms:
+            r.missing_anchor(f"{CO}::{name} match table")
+            continue
+        tab = _op_table(ms[0])
+        if tab is None or set(tab) != set(spec):
+            r.missing_anchor(f"{CO}::{name}: match arms are not variant → variant for all eight operators")
+            continue
+        r.functions.add(ms[0]["fn"])
+        for v in sorted(spec):
+            ok = tab[v] == spec[v]
+            r.inst({"fn": name, "op": v, "maps_to": tab[v]}, ok)
+            if not ok:
+                r.violate(ms[0]["fn"], f"{name}:{v}", f"{name}({v}) = {tab[v]}, must be {spec[v]}: {why}", ms[0]["file"], ms[0]["line"])
+    return r
+
+
+def rule_condkeep(facts):
+    from .mir import Fn
+    r = RuleResult("C06-CONDKEEP", "JoinConditionExtractor::extract: every conjunct of the ON clause ends up in one of the output lists "
+                   "(comparisons / arbitrary / left_filter / right_filter) on every path through the loop body — no conjunct is dropped", floor=1)
+    recs = facts.fns_matching(lambda i: "condition_extractor::JoinConditionExtractor" in i and i.endswith("::extract"))
+    if not recs:
+        r.missing_anchor("JoinConditionExtractor::extract")
+        return r
+    rec = recs[0]
+    fn = Fn(rec)
+    r.functions.add(fn.id)
+    sides = [c for c in fn.calls() if c.name.endswith("ExprJoinSide::try_from_expr")]
+    nexts = [c for c in fn.calls() if c.name.endswith("as std::iter::Iterator>::next")]
+    loop = None
+    for n in nexts:
+        body = fn.reach(n.target, avoid_blocks=[n.bb], threaded=False) if n.target is not None else set()
+        if any(c.bb in body for c in sides) and n.bb in fn.reach(n.target, threaded=False):
+            loop = n
+    if loop is None:
+        r.missing_anchor("loop over the split conjuncts in extract")
+        return r
+    pushes = {c.bb for c in fn.calls() if c.name.endswith("Vec::<T, A>::push") or c.name.endswith("Vec::<T, A>::extend")}
+    r.call_sites = len(pushes)
+    # blocks reachable from the loop body entry without passing a push; the loop head must not be among them
+    free = fn.reach(loop.target, avoid_blocks=list(pushes), threaded=False)
+    # the first step (loop.target) is the Option switch; the None edge leaves the loop — only paths that come *back* to next() count
+    back = [b for b in free if b != loop.target and loop.bb in fn.succ_of_term(fn.term(b)) and b != loop.bb]
+    ok = not back
+    r.inst({"fn": fn.id, "loop_line": loop.line, "pushes": len(pushes), "path_back_to_loop_head_without_push": bool(back)}, ok)
+    if not ok:
+        ln = fn.term(back[0])[-1] if isinstance(fn.term(back[0])[-1], int) else loop.line
+        r.violate(fn.id, "conjunct-dropped", "a path through the loop body returns to the next conjunct without storing the current one in any output list: "
+                  "that ON-clause conjunct is silently dropped and the join returns rows that do not satisfy it", rec["file"], ln)
     return r
